@@ -202,6 +202,8 @@ def towers(depth):
     add("if-then", "if true { ", "1", " } else { 2 }")
     add("else-if", "if false { 1 } else ", "{ 2 }", "")
     add("match", "match 1 { 1 => ", "2", ", _ => 3 }")
+    add("match-default", "match 1 { 1 => 2, _ => ", "3", " }")
+    add("match-only-default", "match 1 { _ => ", "3", " }")
     add("try", "try { ", "1", " } catch e { 2 }")
     add("lambda", "fn() -> int { ", "1", " }")
     add("lambda-null", "fn() { ", "", " }")
